@@ -75,4 +75,28 @@ def trun (w : Nat) (t : TCounters) : List TOp → List (List Nat)
   | [] => []
   | op :: rest => let r := tstep w t op; r.2 :: trun w r.1 rest
 
+/-! ## several keys: each key its own eagerly expiring counter array; a copy copies the VALUE -/
+
+abbrev MCounters := Nat → TCounters
+
+def MCounters.set (m : MCounters) (k : Nat) (t : TCounters) : MCounters := fun k' => if k' = k then t else m k'
+
+open CashewsVerif.Bits (MOp)
+
+/-- `copy src dst ttl`: when `src` holds an array, `dst` holds the same counter values from now on
+(its own array: later commands on one key do not show on the other), with the new deadline or the
+one `dst` had -/
+def mstep (w : Nat) (m : MCounters) : MOp → MCounters × List Nat
+  | .on k op => let r := tstep w (m k) op; (m.set k r.1, r.2)
+  | .adv dt => (fun k => (tstep w (m k) (.adv dt)).1, [])
+  | .copy src dst ttl =>
+    if (m src).live then
+      let d := m dst
+      (m.set dst { d with c := (m src).c, live := true, dl := if ttl ≠ 0 then some (d.now + ttl) else d.dl }, b2l true)
+    else (m, b2l false)
+
+def mrun (w : Nat) (m : MCounters) : List MOp → List (List Nat)
+  | [] => []
+  | op :: rest => let r := mstep w m op; r.2 :: mrun w r.1 rest
+
 end CashewsVerif.Counters
